@@ -40,6 +40,11 @@ pub struct Iter<'a, K: Send, V: Send + Sync, H> {
   cursor: Cursor,
   batch_size: usize,
   finished: bool,
+  /// The keys of the shard being scanned, taken when its scan began;
+  /// `cursor.items_seen_in_shard` is a position in this list. A position in the live map
+  /// would shift whenever an entry in front of it is removed between two batches (by a
+  /// user or by the janitor collecting expired entries) and the scan would skip live entries.
+  shard_keys: Option<Vec<K>>,
 }
 
 impl<'a, K, V, H> Iter<'a, K, V, H>
@@ -55,6 +60,7 @@ where
       cursor: Cursor::default(),
       batch_size,
       finished: false,
+      shard_keys: None,
     }
   }
 
@@ -70,29 +76,29 @@ where
       let shard = &self.cache.shared.store.shards[self.cursor.shard_index];
       let guard = shard.map.read();
 
-      let items_in_shard = guard.len();
-      if self.cursor.items_seen_in_shard >= items_in_shard {
+      let keys = self
+        .shard_keys
+        .get_or_insert_with(|| guard.keys().cloned().collect());
+
+      if self.cursor.items_seen_in_shard >= keys.len() {
         self.cursor.shard_index += 1;
         self.cursor.items_seen_in_shard = 0;
+        self.shard_keys = None;
         continue;
       }
 
       let needed = self.batch_size - self.buffer.len();
-      let mut scanned = 0;
+      let end = (self.cursor.items_seen_in_shard + needed).min(keys.len());
 
-      let chunk = guard
-        .iter()
-        .skip(self.cursor.items_seen_in_shard)
-        .take(needed);
-
-      for (key, entry) in chunk {
-        scanned += 1;
-        if !entry.is_expired(self.cache.shared.time_to_idle) {
-          self.buffer.push_back((key.clone(), entry.value()));
+      for key in &keys[self.cursor.items_seen_in_shard..end] {
+        if let Some(entry) = guard.get(key) {
+          if !entry.is_expired(self.cache.shared.time_to_idle) {
+            self.buffer.push_back((key.clone(), entry.value()));
+          }
         }
       }
 
-      self.cursor.items_seen_in_shard += scanned;
+      self.cursor.items_seen_in_shard = end;
     } // Lock on shard is released here
 
     if self.cursor.shard_index >= num_shards {
@@ -139,8 +145,15 @@ pub struct IterStream<K: Send, V: Send + Sync, H> {
   cursor: Cursor,
   batch_size: usize,
   finished: bool,
-  refill_future:
-    Option<Pin<Box<dyn Future<Output = (VecDeque<(K, Arc<V>)>, Cursor, bool)> + Send + 'static>>>,
+  /// See [`Iter`]: the keys of the shard being scanned, taken when its scan began.
+  shard_keys: Option<Vec<K>>,
+  refill_future: Option<
+    Pin<
+      Box<
+        dyn Future<Output = (VecDeque<(K, Arc<V>)>, Cursor, bool, Option<Vec<K>>)> + Send + 'static,
+      >,
+    >,
+  >,
 }
 
 impl<K, V, H> IterStream<K, V, H>
@@ -157,6 +170,7 @@ where
       cursor: Cursor::default(),
       batch_size,
       finished: false,
+      shard_keys: None,
       refill_future: None,
     }
   }
@@ -185,8 +199,9 @@ where
     // If a refill is in flight, poll it
     if let Some(ref mut fut) = this.refill_future {
       match fut.as_mut().poll(cx) {
-        Poll::Ready((batch, new_cursor, finished_flag)) => {
+        Poll::Ready((batch, new_cursor, finished_flag, shard_keys)) => {
           this.refill_future = None;
+          this.shard_keys = shard_keys;
           this.cursor = new_cursor;
           this.finished = finished_flag;
           this.buffer.extend(batch);
@@ -206,6 +221,7 @@ where
       let batch_size = this.batch_size;
       // If time_to_idle is Copy/Clone, capture it; otherwise clone appropriately.
       let time_to_idle = cache_clone.shared.time_to_idle;
+      let mut shard_keys = this.shard_keys.take();
 
       let mut fut = Box::pin(async move {
         let mut cursor = cursor_snapshot;
@@ -216,35 +232,37 @@ where
           let shard = &cache_clone.shared.store.shards[cursor.shard_index];
           let guard = shard.map.read_async().await;
 
-          let items_in_shard = guard.len();
-          if cursor.items_seen_in_shard >= items_in_shard {
+          let keys = shard_keys.get_or_insert_with(|| guard.keys().cloned().collect());
+
+          if cursor.items_seen_in_shard >= keys.len() {
             cursor.shard_index += 1;
             cursor.items_seen_in_shard = 0;
+            shard_keys = None;
             continue;
           }
 
           let needed = batch_size - local_buf.len();
-          let mut scanned = 0;
+          let end = (cursor.items_seen_in_shard + needed).min(keys.len());
 
-          let chunk = guard.iter().skip(cursor.items_seen_in_shard).take(needed);
-
-          for (key, entry) in chunk {
-            scanned += 1;
-            if !entry.is_expired(time_to_idle) {
-              local_buf.push_back((key.clone(), entry.value()));
+          for key in &keys[cursor.items_seen_in_shard..end] {
+            if let Some(entry) = guard.get(key) {
+              if !entry.is_expired(time_to_idle) {
+                local_buf.push_back((key.clone(), entry.value()));
+              }
             }
           }
 
-          cursor.items_seen_in_shard += scanned;
+          cursor.items_seen_in_shard = end;
         }
 
         let finished = cursor.shard_index >= num_shards;
-        (local_buf, cursor, finished)
+        (local_buf, cursor, finished, shard_keys)
       });
 
       // Poll new future immediately
       match fut.as_mut().poll(cx) {
-        Poll::Ready((batch, new_cursor, finished_flag)) => {
+        Poll::Ready((batch, new_cursor, finished_flag, shard_keys)) => {
+          this.shard_keys = shard_keys;
           this.cursor = new_cursor;
           this.finished = finished_flag;
           this.buffer.extend(batch);
